@@ -6,7 +6,7 @@ import panics
 
 CONFIGS_QUICK = ["F_all", "F_nool"]  # every configuration whose cfg-gated code the property depends on
 CONFIGS_THOROUGH = ["F_all", "F_nool"]
-TECHNIQUE = 'static analysis: panic-site enumeration over MIR of src/de with justification classes re-verified per run (peek-then-next dominance, who-may-assign flags, merging-transducer drop set, config who-may-write), reader panic audit re-evaluated as a premise, compile-fail witness'
+TECHNIQUE = 'static analysis: panic-site enumeration over MIR of src/de with justification classes re-verified per run (peek-then-next dominance, who-may-assign flags, merging-transducer drop set, config who-may-write), reader panic audit re-evaluated as a premise, compile-fail witness, Ok-exit justification of XmlReader::read_to_end, explicit table of audited debug assertions'
 EXPLANATION = (
     "Panic-site audit of src/de/*: every panic-capable construct (unreachable!/panic calls, unwrap/expect, range "
     "indexing, split_at/split_off, bounds/overflow asserts) is enumerated from MIR and must be discharged by a local "
